@@ -234,7 +234,11 @@ fn is_removal(a: &Case, b: &Case) -> bool {
     b.request_prefix().len() + 10 < a.request_prefix().len()
 }
 
-fn shrink(drv: &mut Drv, c: &Case, kind: &str) -> (Case, String, String) {
+fn shrink(drv: &mut Drv, c: &Case, kind: &str, secs: u64) -> (Case, String, String) {
+    // wall-clock cap: long cases (hundreds of numbers) make the quadratic simplification phase slow, and one shrunk
+    // witness per failure class is what the replay needs
+    let t0 = std::time::Instant::now();
+    let over = |t0: &std::time::Instant| t0.elapsed().as_secs() >= secs;
     let mut best = c.clone();
     let mut best_req = full_request(&best);
     let mut best_resp = drv.ask(&best_req);
@@ -243,7 +247,8 @@ fn shrink(drv: &mut Drv, c: &Case, kind: &str) -> (Case, String, String) {
     loop {
         let mut improved = false;
         for cand in shrink_candidates(&best).into_iter().filter(|d| is_removal(&best, d)) {
-            if budget == 0 {
+            if budget == 0 || over(&t0) {
+                budget = 0;
                 break;
             }
             budget -= 1;
@@ -266,7 +271,7 @@ fn shrink(drv: &mut Drv, c: &Case, kind: &str) -> (Case, String, String) {
         let mut improved = false;
         let cands: Vec<Case> = shrink_candidates(&best).into_iter().filter(|d| !is_removal(&best, d)).collect();
         let mut i = 0;
-        while i < cands.len() && budget > 0 {
+        while i < cands.len() && budget > 0 && !over(&t0) {
             // re-apply the i-th kind of simplification to the current best
             let fresh: Vec<Case> = shrink_candidates(&best).into_iter().filter(|d| !is_removal(&best, d)).collect();
             if i >= fresh.len() {
@@ -484,7 +489,7 @@ fn main() {
         *counts.entry(kind.split(' ').next().unwrap().to_string()).or_insert(0) += 1;
         if kind != "ok" {
             if failures.len() < 20 {
-                let (sc, sreq, sresp) = if kind == "bad" { (case.clone(), req.clone(), resp.clone()) } else { shrink(&mut drv, &case, &kind) };
+                let (sc, sreq, sresp) = if kind == "bad" { (case.clone(), req.clone(), resp.clone()) } else { shrink(&mut drv, &case, &kind, if failures.len() < 4 { 12 } else { 2 }) };
                 failures.push(serde_json::json!({
                     "kind": kind.split(' ').next().unwrap(),
                     "campaign": campaign,
